@@ -1544,22 +1544,27 @@ func (dsc *dataStoreCommand) lmove(srcKeyName, destKeyName string, srcLeft, dest
 		return
 	}
 
-	// remove the item from the source list
-	var item *listItem
+	// pick the element to move
+	var element []byte
 	if srcLeft {
-		item = srcList.head
-		dsc.lpopUnlocked(srcKeyName, srcList, item)
+		element = srcList.head.element
 	} else {
-		item = srcList.tail
-		dsc.rpopUnlocked(srcKeyName, srcList, item)
+		element = srcList.tail.element
 	}
-	element := item.element
 
-	// place the item into the dest list
+	// place the element into the dest list first, so that a list moved onto
+	// itself never becomes empty (and loses its key) in the middle of the move
 	if destLeft {
 		dsc.lpushUnlocked(destKeyName, destList, element)
 	} else {
 		dsc.rpushUnlocked(destKeyName, destList, element)
+	}
+
+	// remove the element from the source list
+	if srcLeft {
+		dsc.lpopUnlocked(srcKeyName, srcList, srcList.head)
+	} else {
+		dsc.rpopUnlocked(srcKeyName, srcList, srcList.tail)
 	}
 	uk.elements = 1
 
